@@ -134,7 +134,8 @@ func replayDistribute(m map[string]any) int {
 	fmt.Printf("logs %v\nwitness answers %v\ndistributor answers %v\n", m["origins"], m["witness_answers"], m["distributor_answers"])
 	warm, _ := m["after_a_valid_round"].(bool)
 	sl, _ := m["witness_name_with_slash"].(bool)
-	c15RunOpt(run, u, stringsOf(m["origins"]), stringsOf(m["witness_answers"]), stringsOf(m["distributor_answers"]), warm, sl)
+	ns, _ := m["log_keys_named_like_the_witness"].(bool)
+	c15RunOpt(run, u, stringsOf(m["origins"]), stringsOf(m["witness_answers"]), stringsOf(m["distributor_answers"]), warm, sl, ns)
 	return run.Finish()
 }
 
